@@ -344,7 +344,9 @@ where
             // A node can only be reused as it is,
             // if its position relative to the enclosing reference did not change.
             let relative_start = input.location_offset() - input.reference_pos;
-            let moved = relative_start != this.to_range().start;
+            let moved = relative_start != this.to_range().start
+                // nor if the parser is not positioned at the first token of the old node
+                || input.location_offset() != input.token_change.new_token_pos(this_range.start);
             if moved || input.token_change.overlaps(&affected_range) {
                 #[cfg(feature = "verif")]
                 crate::verif::count(&crate::verif::REPARSED);
